@@ -20,6 +20,7 @@ pub fn profiles() -> Vec<(&'static str, GenCfg)> {
     base.choice_count = true;
     base.plain_choice_text = true;
     base.no_glue_with_tags = true;
+    base.choice_tags = true;
     let mut weave = base.clone();
     weave.tunnels = false;
     weave.functions = false;
@@ -61,7 +62,7 @@ fn show_global(v: &crate::refint::eval::V) -> String {
 
 /// what the engine showed, cut into segments at the choices taken
 struct EngineView {
-    segments: Vec<(Vec<(String, Vec<String>)>, Vec<String>, Vec<String>)>,
+    segments: Vec<(Vec<(String, Vec<String>)>, Vec<String>, Vec<String>, Vec<Vec<String>>)>,
 }
 
 fn engine_view(run: &PathRun) -> EngineView {
@@ -69,9 +70,10 @@ fn engine_view(run: &PathRun) -> EngineView {
     let mut lines: Vec<(String, Vec<String>)> = Vec::new();
     let mut errors: Vec<String> = Vec::new();
     let mut choices: Vec<String> = Vec::new();
+    let mut ctags: Vec<Vec<String>> = Vec::new();
     for r in run.recs.iter() {
         if r.op.starts_with("Choose") {
-            segments.push((std::mem::take(&mut lines), std::mem::take(&mut choices), std::mem::take(&mut errors)));
+            segments.push((std::mem::take(&mut lines), std::mem::take(&mut choices), std::mem::take(&mut errors), std::mem::take(&mut ctags)));
             if let Err((_, m)) = &r.res {
                 errors.push(format!("choose: {m}"));
             }
@@ -92,13 +94,14 @@ fn engine_view(run: &PathRun) -> EngineView {
             }
         }
         choices = r.snap.choices.iter().map(|c| c.0.clone()).collect();
+        ctags = r.snap.choices.iter().map(|c| c.1.clone()).collect();
     }
-    segments.push((lines, choices, errors));
+    segments.push((lines, choices, errors, ctags));
     EngineView { segments }
 }
 
 fn seg_json(s: &Segment) -> Value {
-    json!({"lines": s.lines, "choices": s.choices, "status": format!("{:?}", s.status)})
+    json!({"lines": s.lines, "choices": s.choices, "choice_tags": s.choice_tags, "status": format!("{:?}", s.status)})
 }
 
 pub struct Verdict {
@@ -114,7 +117,7 @@ pub fn compare_path(p: &Program, ir: &Rc<crate::refint::ir::Ir>, run: &PathRun, 
     let ev = engine_view(run);
     let mut expected: Vec<Segment> = Vec::new();
     let mut verdict = Verdict { aspect: None, detail: Value::Null, unsupported: None, seen: Default::default() };
-    for (si, (elines, echoices, eerrors)) in ev.segments.iter().enumerate() {
+    for (si, (elines, echoices, eerrors, ectags)) in ev.segments.iter().enumerate() {
         let seg = ri.segment();
         expected.push(seg.clone());
         match &seg.status {
@@ -155,6 +158,8 @@ pub fn compare_path(p: &Program, ir: &Rc<crate::refint::ir::Ir>, run: &PathRun, 
             }
             if *echoices != seg.choices {
                 diff("choices", json!({"expected": seg.choices, "engine": echoices}));
+            } else if *ectags != seg.choice_tags {
+                diff("choice-tags", json!({"choices": seg.choices, "expected": seg.choice_tags, "engine": ectags}));
             }
         }
         if found.borrow().is_none() && si < run.choices.len() && si + 1 < ev.segments.len() {
